@@ -55,7 +55,7 @@ theorem C17_points_guarded :
     is the Done channel of the loop that answers — so it cannot go away while that loop is
     blocked in the send (model part: `C17_loop_never_stuck`). -/
 theorem C17_reply_receivers_parked :
-    ∀ p ∈ Gen.blocking, p.dir = .recv → p.ch = "ch" →
+    ∀ p ∈ Gen.blocking, p.dir = .recv → p.ch = "made#1" → p.fn ≠ "peer.Run" →
       p.sel = true ∧ (p.alts = [.tDone] ∨ p.alts = [.pDone]) := by decide
 
 /-- every operation has a spec in the table, and that spec is guarded and reply-safe -/
